@@ -262,6 +262,12 @@ MUTANTS = [
     ("bc_fan_cell_count_other_pole", "bempp_cl/api/grid/grid.py", "edge_lengths, vertex_edges2, bary_grid, local2global, 1.0, nc2, global_dof_index\n", "edge_lengths, vertex_edges2, bary_grid, local2global, 1.0, nc1, global_dof_index\n", 0, ["C10"]),
     ("bc_fan_interior_helper_for_border_pole", "bempp_cl/api/grid/grid.py", "    if border_edges1 and not border_edges2:", "    if border_edges2 and not border_edges1:", 0, ["C10"]),
     ("l2_norm_without_conjugate", "bempp_cl/api/assembly/grid_function.py", "        return np.sqrt(np.abs(vec.conjugate().T.dot(mass.dot(vec))))", "        return np.sqrt(np.abs(vec.T.dot(mass.dot(vec))))", 0, ["C13"]),
+    ("transpose_flag_constant_g21", "bempp_cl/api/assembly/boundary_operator.py", "self._operator_descriptor, not self.transpose_\n", "self._operator_descriptor, True\n", 0, ["C14"]),
+    ("transpose_range_dual_exchanged_g21", "bempp_cl/api/assembly/boundary_operator.py", "self._dual_to_range, _range, self._domain, self._assembler", "self._dual_to_range, self._domain, _range, self._assembler", 0, ["C14"]),
+    ("dense_adjoint_without_conjugate", "bempp_cl/api/assembly/discrete_boundary_operator.py", "return DenseDiscreteBoundaryOperator(self.to_dense().conjugate().transpose())", "return DenseDiscreteBoundaryOperator(self.to_dense().transpose())", 0, ["C14"]),
+    ("sparse_transpose_conjugates", "bempp_cl/api/assembly/discrete_boundary_operator.py", "return SparseDiscreteBoundaryOperator(self.to_sparse().transpose())", "return SparseDiscreteBoundaryOperator(self.to_sparse().transpose().conjugate())", 0, ["C14"]),
+    ("rank_one_transpose_not_exchanged", "bempp_cl/api/assembly/discrete_boundary_operator.py", "return DiscreteRankOneOperator(self._row, self._column)", "return DiscreteRankOneOperator(self._column, self._row)", 0, ["C14"]),
+    ("diagonal_adjoint_not_conjugated", "bempp_cl/api/assembly/discrete_boundary_operator.py", "return DiagonalOperator(self._values.conjugate())", "return DiagonalOperator(self._values)", 0, ["C14"]),
     ("potential_rule_in_closure_global", "bempp_cl/core/numba_assemblers.py", "    def evaluator(x):\n        \"\"\"Actually evaluate the potential.\"\"\"\n", "    def evaluator(x):\n        \"\"\"Actually evaluate the potential.\"\"\"\n        quad_points, quad_weights = rule(parameters.quadrature.regular)\n", 0, ["C18"]),
 ]
 
